@@ -19,7 +19,8 @@ def build(ctx, name, sources, libs=(), defines=(), sanitize=True, opt="-O1", ext
     """Compile `sources` (absolute paths or repo-relative 'src/...' or harness-relative) into an executable
     under ctx.work.  Each source is its own TU, compiled in parallel.  Returns exe path or None."""
     objs, jobs = [], []
-    flags = cflags(ctx.repo, defines) + ["-g", opt, "-w"] + (SAN if sanitize else []) + list(extra)
+    cov = ["--coverage"] if os.environ.get("VERIF_COV") else []      # tools/coverage.sh: which lines of /repo do the streams execute?
+    flags = cflags(ctx.repo, defines) + ["-g", opt, "-w"] + (SAN if sanitize else []) + list(extra) + cov
     odir = os.path.join(ctx.work, "obj_" + name)
     os.makedirs(odir, exist_ok=True)
     for s in sources:
@@ -39,7 +40,7 @@ def build(ctx, name, sources, libs=(), defines=(), sanitize=True, opt="-O1", ext
                 errs.append(" ".join(j[-3:]) + "\n" + out[-1500:])
     exe = os.path.join(ctx.work, name)
     if not errs:
-        rc, out = sh([cc] + (SAN if sanitize else []) + objs + ["-o", exe] + list(libs) + ["-lpthread"], timeout=600)
+        rc, out = sh([cc] + (SAN if sanitize else []) + cov + objs + ["-o", exe] + list(libs) + ["-lpthread"], timeout=600)
         if rc != 0:
             errs.append(out[-2000:])
     ctx.obligation("build", "harness %s from %s" % (name, ctx.repo), not errs, "\n".join(errs))
